@@ -97,3 +97,26 @@ class WithDerivedField:
 
     def __post_init__(self) -> None:
         self.y = np.zeros((self.x.shape[1] * self.scale,), dtype=np.int32)
+
+
+# a collections.namedtuple subclass that annotates only SOME of its fields, an un-annotated one standing before annotated ones
+import collections  # noqa: E402
+
+
+class _SampleBase(collections.namedtuple("_SampleBase", ["sample_id", "image", "aux", "mask"])):
+    __slots__ = ()
+    image: A
+    mask: B
+
+
+PartiallyAnnotated = dltype.dltyped_namedtuple()(_SampleBase)
+
+
+# string annotations + a wrapper from another module between dltyped and the function
+from harness import c16_wrappers  # noqa: E402
+
+
+@dltype.dltyped()
+@c16_wrappers.timed
+def through_foreign_wrapper(x: "A", y: "B") -> "A":
+    return x
